@@ -122,3 +122,44 @@ impl OsIpcReceiver {
     #[verifier::external_body]
     pub fn consume(&self) -> (r: OsIpcReceiver) ensures r.receiver.v == self.receiver.v { unimplemented!() }
 }
+
+// ---- one-shot server: the global registry ONE_SHOT_SERVERS (Mutex<HashMap<String, ServerRecord>>) ----
+// D45: `ONE_SHOT_SERVERS.lock().unwrap()` -> `reg` (mutex elimination: the map is passed in as an exclusive borrow)
+pub struct ServerRecord { pub sender: OsIpcSender }     // + the bool channel used for the connect/accept handshake (not modelled)
+pub struct ServerMap { pub ghost m: Map<Seq<char>, int> }   // name -> channel of the record's sender
+pub struct OsIpcOneShotServer { pub receiver: OsIpcReceiver, pub name: String }
+impl ServerMap {
+    #[verifier::external_body]
+    pub fn get(&self, name: &String) -> (r: Option<&ServerRecord>)
+        ensures (r is Some) <==> self.m.contains_key(name@), r matches Some(rec) ==> rec.sender.sender.v.chan == self.m[name@]
+    { unimplemented!() }
+    #[verifier::external_body]
+    pub fn remove(&mut self, name: &String) -> (r: Option<ServerRecord>)
+        ensures (r is Some) <==> old(self).m.contains_key(name@), final(self).m == old(self).m.remove(name@)
+    { unimplemented!() }
+    #[verifier::external_body]
+    pub fn insert(&mut self, name: String, record: ServerRecord) -> (r: Option<ServerRecord>)
+        ensures final(self).m == old(self).m.insert(name@, record.sender.sender.v.chan)
+    { unimplemented!() }
+}
+impl ServerRecord {
+    #[verifier::external_body]
+    pub fn new(sender: OsIpcSender) -> (r: ServerRecord) ensures r.sender.sender.v.chan == sender.sender.v.chan { unimplemented!() }
+    #[verifier::external_body]
+    pub fn clone(&self) -> (r: ServerRecord) ensures r.sender.sender.v.chan == self.sender.sender.v.chan { unimplemented!() }
+    // handshake: accept() waits until one client has called connect()
+    #[verifier::external_body]
+    pub fn accept(&self) { unimplemented!() }
+    #[verifier::external_body]
+    pub fn connect(&self) { unimplemented!() }
+}
+// Uuid::new_v4().to_string(): a name no live server has (assumption: version-4 UUIDs do not collide)
+#[verifier::external_body]
+pub fn fresh_server_name(reg: &ServerMap) -> (r: String) ensures !reg.m.contains_key(r@) { unimplemented!() }
+// channel(): a new crossbeam channel with both ends alive and nothing queued
+#[verifier::external_body]
+pub fn channel(Tracked(x): Tracked<&mut X>) -> (r: Result<(OsIpcSender, OsIpcReceiver), ChannelError>)
+    ensures r matches Ok((tx, rx)) ==> rx.receiver.v is Some && tx.sender.v.chan == rx.receiver.v->0.chan && !old(x).q.contains_key(tx.sender.v.chan)
+                && final(x).q == old(x).q.insert(tx.sender.v.chan, Seq::<Msg>::empty()) && final(x).waits == old(x).waits,
+            r is Err ==> *final(x) == *old(x),
+{ unimplemented!() }
